@@ -15,6 +15,10 @@ NCPU = os.cpu_count() or 4
 GOENV = dict(GOFLAGS="-mod=mod", GOPROXY="off", GOSUMDB="off", GOTOOLCHAIN="local")
 
 
+import threading
+_lock = threading.Lock()
+
+
 class Inconclusive(Exception):
     pass
 
@@ -73,16 +77,17 @@ class Ctx:
     # ----------------------------------------------------------------- tlc
     def specdir(self, sub=None):
         """A scratch copy of /verif/spec (TLC litters its working directory)."""
-        if self._specdir is None:
-            d = os.path.join(self.tmp, "spec")
-            shutil.copytree(SPEC, d)
-            self._specdir = d
-        if sub is None:
-            return self._specdir
-        d = os.path.join(self.tmp, "spec-" + sub)
-        if not os.path.isdir(d):
-            shutil.copytree(SPEC, d)
-        return d
+        with _lock:
+            if sub is None:
+                if self._specdir is None:
+                    d = os.path.join(self.tmp, "spec")
+                    shutil.copytree(SPEC, d)
+                    self._specdir = d
+                return self._specdir
+            d = os.path.join(self.tmp, "spec-" + sub)
+            if not os.path.isdir(d):
+                shutil.copytree(SPEC, d)
+            return d
 
     def tlc(self, module, cfg=None, workers=None, args=(), timeout=1800, cwd=None, env=None,
             count=True, deque=False, heap=None):
